@@ -6,6 +6,9 @@ CLAIMED = {
  "C01": dict(technique="static analysis: must-pass-through (dominance) over SSA for write<sync<ack ordering, success-return provenance per call-graph hop, provenance/ownership of the skip-fsync flag, replay/append offset agreement, abstract file-set typestate for loader totality",
              text="Structural necessary conditions of durability, decided for every path of the ack chain (not sampled): a break of any of them loses or corrupts an acknowledged bulk under some crash point. It does not decide byte contents or equality of replayed state.",
              note="Trusted: go/types+go/ssa, dominators, frozen anchor table in checker/internal/props/c01.go; assumes all durable effects go through os.File WriteAt/Sync/Truncate.", ref="§3 C01"),
+ "C08": dict(technique="static analysis: scoped error-flow (every error under frac.Seal must be returned/wrapped/stored/fatal), must-pass-through publish order (sync<rename<dirsync, registry last), who-may-call ownership of file removal, file-set typestate over crash prefixes",
+             text="Every path of the sealing code is examined for a swallowed error, a publish step that can run after a failed step, or a release of the originals that is not dominated by a successful seal: each is a necessary condition of all-or-nothing sealing. Torn file contents are not decided.",
+             note="Trusted: go/ssa, the set of error-handling idioms accepted as propagation (DESIGN §2.3 ERRFLOW), frozen owner table; scope is static callees+closures in frac, disk, bytespool, packer, zstd, util.", ref="§3 C08"),
 }
 
 NOT_YET = "check not built yet in this round (planned in DESIGN.md §3); nothing is claimed for it"
